@@ -61,7 +61,7 @@ pub trait Strategy: Send {
     }
     /// How well the plan could be followed (for directed strategies).
     fn summary(&self) -> Value {
-        json!({"plain": 1})
+        json!({"segments": 0, "reached": 0, "missed": 0, "first_missed": -1, "solo_max": 0})
     }
 }
 
@@ -110,7 +110,7 @@ pub static SCHED: std::sync::LazyLock<Sched> = std::sync::LazyLock::new(|| Sched
         roles: Roles::new(),
         active: false,
         spurious_in_op: Vec::new(),
-        step_limit: 200_000,
+        step_limit: 60_000,
         overrun: false,
         log_atomics: true,
         stale: std::collections::HashMap::new(),
@@ -174,6 +174,15 @@ impl Inner {
         let mut next = strategy.pick(&p);
         if !runnable.contains(&next) {
             next = if cur_runnable { cur } else { runnable[0] };
+        }
+        if self.step > self.step_limit {
+            // the plan did not terminate (somebody spins): schedule fairly so that waiting loops can finish
+            self.overrun = true;
+            next = runnable[self.step % runnable.len()];
+            if self.step > 4 * self.step_limit {
+                eprintln!("asv: execution does not terminate even under fair scheduling");
+                std::process::exit(3);
+            }
         }
         let mut spur = false;
         if cas_weak && next == cur && self.spurious_in_op[cur] < 1 {
